@@ -1004,3 +1004,6 @@ CASES += [
  dict(id='mut-clique-csv-with-header', kind='fire', file=C, old='.has_headers(false)', new='.has_headers(true)', expect={'C16': 'first line of the input'}, control=False),
  dict(id='mut-convert-width-check-inverted', kind='fire', file=G, old='assert!(edge.len() == 2);', new='assert!(edge.len() != 2);', expect={'C18': 'width of a record'}, control=False),
 ]
+CASES += [
+ dict(id='mut-parse-tree-export-not-rendered', kind='fire', file=M, old='        let graph = SymbolicParseTree::new(&input_parsed.bdd);\n\n        graph.render_dot(&mut f)?;\n', new='        let graph = SymbolicParseTree::new(&input_parsed.bdd);\n        let _ = &graph;\n', expect={'C14': 'export written'}, control=False),
+]
